@@ -36,9 +36,13 @@ func ttName(t token.TokenType) string {
 
 func workerMain() {
 	debug.SetMemoryLimit(1 << 30)
+	parent := os.Getppid()
 	go func() { // memory watchdog: an exploding allocation must not take the machine down
 		for {
 			time.Sleep(50 * time.Millisecond)
+			if os.Getppid() != parent { // the harness is gone (killed): a worker spinning in a hung call must not stay behind
+				os.Exit(4)
+			}
 			var ms runtime.MemStats
 			runtime.ReadMemStats(&ms)
 			if ms.HeapAlloc > 3<<30 {
@@ -706,8 +710,29 @@ func implConc(cwd string, fsT *term, f []string, home string) string {
 		}
 	}
 	var work []*term
-	for i++; i < len(ops); i++ {
-		work = append(work, parseTerm(ops[i]))
+	for j := i + 1; j < len(ops); j++ {
+		work = append(work, parseTerm(ops[j]))
+	}
+	// every call "run alone": as the first call after the setup, in a state that no other call has touched.
+	// The setup is then repeated for the Templates that serve the rest of the workload.
+	alone := make([]string, len(work))
+	for k, w := range work {
+		textwire.VerifReset()
+		var t1 *textwire.Template
+		for j := 0; j < i; j++ {
+			implOp(parseTerm(ops[j]), &t1, cwd)
+		}
+		t := t1
+		alone[k] = safely(func() string { return implOp(w, &t, cwd) })
+	}
+	textwire.VerifReset()
+	tpl, tplBase = nil, nil
+	for j := 0; j < i; j++ {
+		op := parseTerm(ops[j])
+		implOp(op, &tpl, cwd)
+		if len(op.list) > 0 && op.list[0].atom == "NEW" {
+			implOp(op, &tplBase, cwd)
+		}
 	}
 	// cold phase, before anything was rendered sequentially: every goroutine converts struct types
 	// that this process has never seen (whatever the conversion remembers per type is built concurrently)
@@ -754,6 +779,9 @@ func implConc(cwd string, fsT *term, f []string, home string) string {
 	for k, w := range work {
 		t := tplBase
 		base[k] = safely(func() string { return implOp(w, &t, cwd) })
+		if base[k] != alone[k] {
+			return fmt.Sprintf("CONC mismatch with the call run alone op=%d after-other-calls=%s alone=%s", k, base[k], alone[k])
+		}
 	}
 	type bad struct {
 		k         int
